@@ -36,7 +36,7 @@ from ..engine.report import AnalysisError, Run
 from ..engine.resolver import FuncInfo, Program, parent_map, walk_no_nested
 from ..engine.util import method_call, node_calls, node_writes, nodes_with_call, reaching_defs
 from ._c12_util import (DupFree, Folder, alias, bcanon, call_args, deref, edges_establishing, emptiness, facts, literals,
-                        normal, path_avoiding_edges, pmap, rename, resolve_callable, single_defs, size_subject,
+                        normal, path_avoiding_edges, pmap, rename, resolve_callable, simplify_under, single_defs, size_subject,
                         test_edges, txt)
 
 CG = "microgrid.component_graph:_MicrogridComponentGraph"
@@ -133,7 +133,8 @@ class Ctx:
         nk = id(fn.node)
         if nk not in self._nested:
             self._nested[nk] = {n.name: n for s in fn.node.body for n in walk_no_nested(s) if isinstance(n, (ast.FunctionDef, ast.AsyncFunctionDef))}
-        out = self.norm(self.folder.expr(deref(expr, defs), {}, fn, self._nested[nk], 0), mapping)
+        # (second deref: what an expanded nested helper reads from the enclosing function's locals)
+        out = self.norm(deref(self.folder.expr(deref(expr, defs), {}, fn, self._nested[nk], 0), defs), mapping)
         self._values[key] = (expr, out, fn, defs)  # keeps the keyed objects alive
         return out
 
@@ -384,7 +385,11 @@ def pairing_ok(cx: Ctx, fn: FuncInfo) -> bool:
 
     n_mf = stmts(lambda s: assigns_entry(s, lambda v: txt(v) == f"self._get_meter_fallback_components({x})"))
     n_own = stmts(lambda s: assigns_entry(s, is_empty_set))
-    n_add = stmts(lambda s: isinstance(s, ast.Expr) and txt(val(s.value)) in {f"{res}.setdefault({q}, set()).add({x})" for q in pops})
+    # the key the device is filed under is read *given* what the rules below establish on the way to that
+    # statement (single predecessor, primary/fallback pair): an optional "primary or None" value resolves
+    given = {("==", frozenset({"1", f"len({pred})"}))} | {("truthy", f"self._is_primary_fallback_pair({q}, {x})") for q in pops}
+    n_add = stmts(lambda s: isinstance(s, ast.Expr) and txt(simplify_under(val(s.value), given))
+                  in {f"{res}.setdefault({q}, set()).add({x})" for q in pops})
     meter = ("==", frozenset({f"{x}.category", METER}))
     e_m = edges_establishing(cfg, lambda a: a == meter, val, within=body)
     e_nm = edges_establishing(cfg, lambda a: a == ("!=", meter[1]), val, within=body)
@@ -413,7 +418,10 @@ def pairing_ok(cx: Ctx, fn: FuncInfo) -> bool:
             return False
     if path_avoiding_edges(cfg, entry, n_add | n_own | t_pair, e_nm, avoid=[h]):
         return False
-    if path_avoiding_edges(cfg, entry, n_add, e_pair, avoid=[h]) or path_avoiding_edges(cfg, entry, t_pair, e_len, avoid=[h]):
+    if path_avoiding_edges(cfg, entry, n_add, e_pair, avoid=[h]):
+        return False
+    # the pair is only asked about a *single* predecessor: established together with, or after, `len == 1`
+    if any(e not in e_len and path_avoiding_edges(cfg, entry, [e[0]], e_len, avoid=[h]) for e in e_pair):
         return False
     for _t, m, _lab in e_pair:
         if not must_pass(m, n_add) or after(m) & n_own:
